@@ -230,6 +230,35 @@ CORPUS_REC1 = [
 ]
 
 
+def nested_cycles(rng):
+    """scripted: nested cycles of the call graph.  f heads the outer cycle, h the inner one, g belongs to
+    both; the outer head calls the inner non-head member g directly and through h; every recursion
+    terminates (the argument grows past the guards).  The function ids are permuted (the order of the
+    cfgs decides which member becomes the head of the inner cycle)."""
+    ids = [1, 2, 3]; rng.shuffle(ids)
+    f, h, g = ids
+    (x0, r0, a, a1, t, u, fr, b, b1, c, w, v, hr, d, d1, e, s_, gr) = range(18)
+    L = rng.randint(2, 6); inc = rng.randint(L + 1, L + 8); K = rng.choice([50, 999]); c0 = rng.randint(0, L)
+    def le(x, k): return "assume C le E 1 1 %d %d" % (x, -k)
+    def ge(x, k): return "assume C le E 1 -1 %d %d" % (x, k)
+    def cp(x, y): return "assign %d E 1 1 %d 0" % (x, y)
+    def call(fid, out, arg): return "call %d 1 %d 1 %d" % (fid, out, arg)
+    F = {}
+    F[0] = dict(ins=[], outs=[], blocks=[["assign %d E 0 %d" % (x0, c0), call(f, r0, x0)]], edges=[], exit=0)
+    first, second = ([le(a1, K), call(g, t, a1)], [ge(a1, K + 1), call(h, u, a1)])
+    if rng.random() < 0.5:
+        first, second = second, first
+    F[f] = dict(ins=[a], outs=[fr], blocks=[[cp(a1, a)], first, second, [cp(fr, a1)]], edges=[(0, 1), (0, 2), (1, 3), (2, 3)], exit=3)
+    F[h] = dict(ins=[b], outs=[hr],
+                blocks=[[cp(b1, b)], [le(b1, L), "arith add %d %d k %d" % (c, b1, inc), call(g, w, c)],
+                        [ge(b1, K + 1), call(f, v, b1)], [ge(b1, L + 1), le(b1, K)], [cp(hr, b1)]],
+                edges=[(0, 1), (0, 2), (0, 3), (1, 4), (2, 4), (3, 4)], exit=4)
+    F[g] = dict(ins=[d], outs=[gr],
+                blocks=[[cp(d1, d)], [le(d1, L), "arith add %d %d k 1" % (e, d1), call(h, s_, e)], [ge(d1, L + 1)], [cp(gr, d1)]],
+                edges=[(0, 1), (0, 2), (1, 3), (2, 3)], exit=3)
+    return 18, [F[i] for i in range(4)]
+
+
 def with_opts(line, opts):
     h, rest = line.split(" | ", 1)
     t = h.split()
@@ -268,6 +297,10 @@ def gen(seed, tier, stream, n=None):
         lines += CORPUS_MCC
     if stream == "td-params":
         lines += CORPUS_REC1
+        for _ in range(16 if quick else 200):
+            nvn, fn = nested_cycles(rng)
+            lines.append(fmt_iprogram(nvn, fn, [("an", "td"), ("rec", 1), ("delay", rng.choice([0, 1, 2])), ("desc", rng.choice([0, 1, 2])),
+                                                ("exact", rng.choice([0, 1]))] + ([("mcc", rng.choice([1, 2]))] if rng.random() < 0.2 else [])))
     for _ in range(n):
         recursive = stream in ("td-rec", "bu-rec") or (stream in ("td-params", "td-mcc") and rng.random() < 0.4)
         nv, funcs = gen_iprogram(rng, recursive=recursive)
